@@ -146,7 +146,11 @@ func cmdCodec(args []string) {
 	}
 	regs := []lint.Registry{g}
 	r2, _ := g.Filter(lint.FilterOptions{NameFilter: regexp.MustCompile("verif|dns|crl|ocsp")})
-	regs = append(regs, r2)
+	if r2 != nil {
+		regs = append(regs, r2)
+	} else {
+		regs = append(regs, g)
+	}
 	n := 0
 	for i, t := range objs {
 		if i%stride != int(seed)%stride && t.Kind == "cert" {
